@@ -46,6 +46,12 @@ def run(ctx):
     for s in summ:
         for b in s.get("bad_responses") or []:
             ctx.violation("concurrent load round %d (%d clients): %s" % (s["round"], s["clients"], b), dict(kind="srv-load", summary=s))
+    # a rejection is a verdict on C13 when a property-level observation fails: a client's received response is not the one the spec derives
+    # from that client's own request (recv line), or TraceIsolation is violated; a hook line that no action explains means the handler's
+    # internal structure has changed — lost conformance (exit 2), not a violation
+    if rej and not ctx.violations and not (rej["invariant"] or (rej["event"] or {}).get("event") in ("recv", "send", "reset")):
+        raise Infra("TraceServer.tla no longer explains the handler's hook sequence (line %d: %s) although every response matched its own request's oracle: "
+                    "Server.tla needs updating" % (rej["line"], json.dumps(rej["event"])[:300]))
     if rej and not ctx.violations:
         ctx.violation("recorded load trace rejected by TraceServer.tla at line %d (%s): %s" % (rej["line"], rej["invariant"] or "no action explains the event", json.dumps(rej["event"])[:300]),
                       dict(kind="srv-trace", rejection=rej))
